@@ -223,15 +223,25 @@ func (fl *Flow) killSub(s FactSet, sub string) {
 	if sub == "" {
 		return
 	}
+	// a side that is, as a whole, the result of one particular call (`helper(x, p0->f)@b2i3`, possibly `#k`) is a value:
+	// memory named in its arguments only identifies the call, a later write to it does not change the result
+	mentions := func(k string) bool {
+		if !strings.Contains(k, sub) {
+			return false
+		}
+		return !(callResultRe.MatchString(k) && !strings.HasPrefix(k, "*") && !strings.HasPrefix(k, "&"))
+	}
 	for f := range s {
 		if f.Op == "after" {
 			continue
 		}
-		if strings.Contains(f.L, sub) || strings.Contains(f.R, sub) {
+		if mentions(f.L) || mentions(f.R) {
 			delete(s, f)
 		}
 	}
 }
+
+var callResultRe = regexp.MustCompile(`\)@b\d+i\d+(#\d+)?$`)
 
 func (fl *Flow) killAddr(s FactSet, addr ssa.Value) {
 	switch a := addr.(type) {
